@@ -64,6 +64,7 @@ type handler struct {
 	s3                   storage.S3Client
 	cache                *cache.SegmentCache
 	logs                 map[string]map[int32]*storage.PartitionLog
+	logLeaseRevs         map[string]int64 // "topic/partition" -> lease revision the cached log was opened under
 	logMu                sync.RWMutex
 	logInit              singleflight.Group
 	logConfig            storage.PartitionLogConfig
@@ -1087,7 +1088,7 @@ func (h *handler) handleProduce(ctx context.Context, header *protocol.RequestHea
 				}
 				continue
 			}
-			plog, err := h.getPartitionLog(ctx, topic.Topic, part.Partition)
+			plog, err := h.getPartitionLogForAppend(ctx, topic.Topic, part.Partition)
 			if err != nil {
 				h.logger.Error("partition log init failed", "error", err, "topic", topic.Topic, "partition", part.Partition)
 				p := kmsg.NewProduceResponseTopicPartition()
@@ -2033,31 +2034,59 @@ func (h *handler) ensureTopic(ctx context.Context, topic string, partition int32
 	return nil
 }
 
+// getPartitionLog returns the partition log used to serve reads. The log may
+// have been opened while another broker owned the partition.
 func (h *handler) getPartitionLog(ctx context.Context, topic string, partition int32) (*storage.PartitionLog, error) {
-	h.logMu.RLock()
-	if partitions, ok := h.logs[topic]; ok {
-		if plog, ok := partitions[partition]; ok {
-			h.logMu.RUnlock()
-			return plog, nil
-		}
+	return h.openPartitionLog(ctx, topic, partition, false)
+}
+
+// getPartitionLogForAppend returns the partition log to append to. A cached
+// log is only reused if it was opened under the partition lease this broker
+// holds right now. A log opened earlier (by a fetch while another broker owned
+// the partition, or during a previous ownership period) does not know about
+// the segments written by the other owner, so it is dropped and reopened from
+// the published end offset and the segments in S3.
+func (h *handler) getPartitionLogForAppend(ctx context.Context, topic string, partition int32) (*storage.PartitionLog, error) {
+	return h.openPartitionLog(ctx, topic, partition, true)
+}
+
+// partitionLeaseRevision identifies the current ownership period of the
+// partition; 0 means the partition is not owned (or leases are not in use).
+func (h *handler) partitionLeaseRevision(topic string, partition int32) int64 {
+	if h.leaseManager == nil {
+		return 0
 	}
-	h.logMu.RUnlock()
+	rev, _ := h.leaseManager.LeaseRevision(topic, partition)
+	return rev
+}
+
+func (h *handler) openPartitionLog(ctx context.Context, topic string, partition int32, forAppend bool) (*storage.PartitionLog, error) {
+	key := fmt.Sprintf("%s/%d", topic, partition)
+	// Read before any I/O: if the lease changes hands while the log is being
+	// opened, the next append sees a different revision and reopens it.
+	leaseRev := h.partitionLeaseRevision(topic, partition)
+	cached := func() *storage.PartitionLog {
+		h.logMu.RLock()
+		defer h.logMu.RUnlock()
+		plog, ok := h.logs[topic][partition]
+		if !ok || (forAppend && h.logLeaseRevs[key] != leaseRev) {
+			return nil
+		}
+		return plog
+	}
+	if plog := cached(); plog != nil {
+		return plog, nil
+	}
 
 	// Requests for other partitions proceed in parallel; only one goroutine
 	// per partition does the actual initialization.
 	ensured := false
 	for {
-		key := fmt.Sprintf("%s/%d", topic, partition)
-		result, err, _ := h.logInit.Do(key, func() (interface{}, error) {
-			// Double-check under read lock in case another goroutine just finished.
-			h.logMu.RLock()
-			if partitions, ok := h.logs[topic]; ok {
-				if plog, ok := partitions[partition]; ok {
-					h.logMu.RUnlock()
-					return plog, nil
-				}
+		_, err, _ := h.logInit.Do(key, func() (interface{}, error) {
+			// Double-check in case another goroutine just finished.
+			if plog := cached(); plog != nil {
+				return plog, nil
 			}
-			h.logMu.RUnlock()
 
 			// All I/O happens outside the lock.
 			nextOffset, err := h.store.NextOffset(ctx, topic, partition)
@@ -2085,6 +2114,10 @@ func (h *handler) getPartitionLog(ctx context.Context, topic string, partition i
 				h.logs[topic] = make(map[int32]*storage.PartitionLog)
 			}
 			h.logs[topic][partition] = plog
+			if h.logLeaseRevs == nil {
+				h.logLeaseRevs = make(map[string]int64)
+			}
+			h.logLeaseRevs[key] = leaseRev
 			h.logMu.Unlock()
 
 			return plog, nil
@@ -2103,7 +2136,12 @@ func (h *handler) getPartitionLog(ctx context.Context, topic string, partition i
 			}
 			return nil, err
 		}
-		return result.(*storage.PartitionLog), nil
+		// The initialization may have been started by a concurrent request
+		// that opened the log for a different ownership period; look the
+		// result up again instead of trusting the shared one.
+		if plog := cached(); plog != nil {
+			return plog, nil
+		}
 	}
 }
 
